@@ -109,8 +109,9 @@ func (p *Params) F(pkSeed []byte, adrs *ADRS, m1 []byte) []byte {
 	return p.sha256Tweak(pkSeed, adrs, m1)
 }
 
-// H computes H(PK.seed, ADRS, M2) with |M2| = 2n.
-func (p *Params) H(pkSeed []byte, adrs *ADRS, m2 []byte) []byte {
+// HashH computes the FIPS 205 function H(PK.seed, ADRS, M2) with |M2| = 2n.
+// (It cannot be called H because Params.H is the hypertree height.)
+func (p *Params) HashH(pkSeed []byte, adrs *ADRS, m2 []byte) []byte {
 	if !p.SHA2 {
 		return shake256(p.N, pkSeed, adrs[:], m2)
 	}
